@@ -16,6 +16,9 @@ Lemma of_out_omap {A C} (g : A -> C) (o : outcome A) :
   of_out (omap g o) = bind (of_out o) (fun a => Done (g a)).
 Proof. destruct o; reflexivity. Qed.
 
+Lemma bind_ext {A C} (x : res A) (f g : A -> res C) : (forall a, f a = g a) -> bind x f = bind x g.
+Proof. intros H. destruct x; cbn [bind]; [apply H|reflexivity|reflexivity]. Qed.
+
 (* ds[i] *)
 Lemma rd_as_arr_get ds i : of_out (Cast.rd ds i) = arr_get ds (Z.of_nat i).
 Proof.
@@ -43,4 +46,77 @@ Lemma p_lit_m1 pb : 0 <= pb -> p_lit pb (-1) = u_not pb 0.
 Proof.
   intros H. unfold p_lit, u_not, B. assert (0 < 2 ^ pb) by (apply Z.pow_pos_nonneg; lia).
   symmetry. apply Z.mod_unique with (q := -1); lia.
+Qed.
+
+(* ---------- the two loops shared by try_from_buint! / to_int! (and their signed variants) ---------- *)
+
+(* `while i < N { if ds[i] != padding { return err } i += 1 }` followed by `v`: Convert.pad_loop (true = fell through) *)
+Lemma pad_loop_tie {R : Type} (err v : R) ds padding :
+  forall f fuel i, (length ds <= i + f)%nat -> (f <= fuel)%nat ->
+  bind (while_loop (R := R) fuel
+          (fun i => (i <? Z.of_nat (length ds)))
+          (fun i =>
+             t' <- arr_get ds i ;;
+             if (negb (t' =? padding)) then (
+               Done (Return err)
+             ) else (
+               let i := (i + 1) in
+               Done (Continue i)
+             ))
+          (Z.of_nat i))
+       (fun t' => match t' with Exited i => Done v | Returned r' => Done r' end)
+  = bind (of_out (Convert.pad_loop f ds padding i)) (fun fell_through => Done (if fell_through then v else err)).
+Proof.
+  induction f as [|f IH]; intros fuel i Hend Hf.
+  - cbn [Convert.pad_loop of_out bind]. rewrite while_loop_cond_false; [reflexivity|].
+    rewrite ltb_of_nat. apply Nat.ltb_ge. lia.
+  - cbn [Convert.pad_loop]. destruct (Nat.ltb_spec i (length ds)) as [Hlt|Hge].
+    + destruct fuel as [|fuel]; [lia|]. rewrite while_loop_S. cbv beta.
+      rewrite ltb_of_nat. destruct (Nat.ltb_spec i (length ds)) as [_|?]; [|lia].
+      rewrite of_out_obind, <- rd_as_arr_get. destruct (Cast.rd ds i) as [d|]; [|reflexivity]. cbn [of_out bind].
+      destruct (negb (d =? padding)); [reflexivity|]. cbv zeta.
+      replace (Z.of_nat i + 1) with (Z.of_nat (S i)) by lia. apply IH; lia.
+    + cbn [of_out bind]. rewrite while_loop_cond_false; [reflexivity|].
+      rewrite ltb_of_nat. apply Nat.ltb_ge. lia.
+Qed.
+
+(* `loop { let shift = i << BIT_SHIFT; if i >= N || shift >= pb { break; } out |= ds[i] as $int << shift; i += 1; }`:
+   Convert.loop_i with try_brk / try_or_body; the budget must exceed the model's (one more unit to reach the `break`) *)
+Lemma try_or_loop_tie {R A : Type} dbg w lg pb ds (K : Z -> Z -> res A) (KR : R -> res A) : 0 <= lg -> w = 2 ^ lg ->
+  forall f fuel i out, (length ds <= i + f)%nat -> (f < fuel)%nat ->
+  bind (while_loop (R := R) fuel
+          (fun '(i, out) => true)
+          (fun '(i, out) =>
+             let shift := (ix_shl i (digit_BIT_SHIFT w)) in
+             if (orb (i >=? Z.of_nat (length ds)) (shift >=? pb)) then (
+               Done (Break (i, out))
+             ) else (
+               t1' <- arr_get ds i ;;
+               t2' <- pint_shl pb (ud pb t1') shift ;;
+               let out := (u_or out t2') in
+               let i := (i + 1) in
+               Done (Continue (i, out))
+             ))
+          (Z.of_nat i, out))
+       (fun t' => match t' with Exited (i, out) => K i out | Returned r' => KR r' end)
+  = bind (of_out (Convert.loop_i f (Convert.try_brk pb w (length ds)) (Convert.try_or_body dbg pb w ds) i out))
+         (fun st => K (Z.of_nat (snd st)) (fst st)).
+Proof.
+  intros Hlg Hw. assert (Hw0 : 0 < w) by (subst w; apply Z.pow_pos_nonneg; lia).
+  assert (Hbrk : forall i, orb (Z.of_nat i >=? Z.of_nat (length ds)) (Z.of_nat i * w >=? pb)
+                           = Convert.try_brk pb w (length ds) i).
+  { intros i. unfold Convert.try_brk. rewrite !Z.geb_leb. f_equal.
+    destruct (Z.leb_spec (Z.of_nat (length ds)) (Z.of_nat i)), (Nat.leb_spec (length ds) i); try reflexivity; lia. }
+  induction f as [|f IH]; intros fuel i out Hend Hf.
+  - cbn [Convert.loop_i of_out bind snd fst]. destruct fuel as [|fuel]; [lia|]. rewrite while_loop_S. cbv beta iota zeta.
+    rewrite (ix_shl_BIT_SHIFT w lg) by assumption. rewrite Hbrk. unfold Convert.try_brk.
+    destruct (Nat.leb_spec (length ds) i); [|lia]. reflexivity.
+  - cbn [Convert.loop_i]. destruct fuel as [|fuel]; [lia|]. rewrite while_loop_S. cbv beta iota zeta.
+    rewrite (ix_shl_BIT_SHIFT w lg) by assumption. rewrite Hbrk.
+    destruct (Convert.try_brk pb w (length ds) i) eqn:Hb; [reflexivity|].
+    unfold Convert.try_brk in Hb. apply orb_false_iff in Hb. destruct Hb as [Hi Hs].
+    apply Z.leb_gt in Hs. unfold Convert.try_or_body at 1.
+    rewrite !of_out_obind, <- rd_as_arr_get. destruct (Cast.rd ds i) as [d|]; [|reflexivity]. cbn [of_out bind].
+    rewrite pint_shl_ok by nia. rewrite shl_chk_in_range by exact Hs. cbn [of_out bind obind].
+    replace (Z.of_nat i + 1) with (Z.of_nat (S i)) by lia. apply IH; lia.
 Qed.
